@@ -33,6 +33,8 @@ ITEMS = [
     ("decorated_async", "import functools\n\n\n@functools.lru_cache(maxsize=None)\ndef cached(n: int = 3) -> int:\n    return n\n\n\nasync def fetch(url, *, timeout=1.0):\n    return url\n"),
     # a sibling constant whose triple-quoted value has lines holding only blanks / a tab
     ("multiline_string", 'TEMPLATE = """first line\n    \nthird line\n\t\nend"""\n'),
+    # the names are bound again further down (decorator-style re-assignment)
+    ("rebind", "ConfigClass = register(ConfigClass)\ntrain = traced(train)\nset_cli_args = traced(set_cli_args)\n"),
     ("control_flow", "if (FLAG := True):\n    LIMIT = 1\nelse:\n    LIMIT = 2\ntry:\n    import json\nexcept ImportError:\n    json = None\n"),
 ]
 MEMBERS = [
@@ -194,6 +196,8 @@ class C11(core.Check):
         base = {"mode": case["mode"], "target": pj.SHORT[target], "state": case["state"], "newline": case["newline"],
                 "moddoc": case.get("moddoc", "-"),
                 "prefix": ">".join(labels[i][0] for i in case["prefix"]) or "-", "suffix": ">".join(labels[i][0] for i in case["suffix"]) or "-"}
+        if not method and any(labels[i][0] == "rebind" for i in case["prefix"] + case["suffix"]):
+            base["rebind"] = "before" if any(labels[i][0] == "rebind" for i in case["prefix"]) else "after"
         exc, rep, out = P.sync(truth, [k for k in pj.KINDS if k in (truth, target)], "api")
         after = P.read(target)
         sites = []
